@@ -5,8 +5,8 @@ import os
 import numpy as np
 from hypothesis import strategies as st
 
-from vlib import gen_asc
-from vlib.harness import Sub
+from vlib import gen_asc, ref_text
+from vlib.harness import Fuzz, Sub
 
 PROPERTY = "C15"
 RULE = (
@@ -185,6 +185,61 @@ def run_corrupt(case, ctx):
     _must_raise(ctx, f"corrupted/{kind}-accepted", text, f"{kind} at number {case['slot']} of a point")
 
 
+# ----------------------------------------------------------------------------- coverage-guided campaigns (thorough tier)
+ASC_MODULES = ["swcgeom.transforms.neurolucida_asc"]
+
+
+def decode_raw(data):
+    if len(data) < 2:
+        return None
+    return {"text": ref_text.ASC_ALPHABET.decode(data)}
+
+
+def raw_seeds(tier):
+    """A few small valid documents (the repository's own test snippets and generator output) as starting corpus."""
+    docs = [
+        "( (Axon) (0 0 0 1) (1 0 0 1) ( (2 1 0 1) | (2 -1 0 1) ) )",
+        "( (Color Red) (Dendrite) (0 0 0 1.5) ( (1 1 0 1) ( (2 2 0 1) | (2 0 0 1) ) | | (1 -1 0 1) ) )",
+        "( (Axon)\n (0 0 0 1) ; root\n (1 0 0 1)\n (\n (2 1 0 1)\n |\n (2 -1 0 1) (Color Red) (3 -1 0 1)\n ) ; end\n)",
+        "((Dendrite)(1.5 -2 .5 1e0)((+1 1 1 1)|))",
+    ]
+    return [ref_text.ASC_ALPHABET.encode(d) for d in docs]
+
+
+def run_raw(case, ctx):
+    """Any text over the ASC alphabet: the independent reference reader says whether it is a grammatical document
+    (then the table is known), definitely malformed (a proper prefix of a grammatical document, or grammatical up to a
+    point that does not consist of four numbers: must be refused) or neither.  Every call runs under the watchdog."""
+    from swcgeom.transforms import NeurolucidaAscToSwc
+
+    text = case["text"]
+    verdict, want, label = ref_text.asc_reference(text)
+    ctx.cls("raw:" + verdict)
+
+    def convert():
+        try:
+            return NeurolucidaAscToSwc.from_stream(io.StringIO(text)), None
+        except RecursionError:
+            raise
+        except Exception as e:  # noqa
+            return None, e
+
+    tree, err = ctx.timed("raw/from_stream", convert, limit=20.0)
+    if verdict == "ambiguous":
+        # nothing is asserted about such texts except that the call returns
+        ctx.ambiguous("text-outside-the-supported-grammar-and-not-definitely-malformed")
+        return
+    short = text if len(text) < 400 else text[:200] + " ... " + text[-200:]
+    if verdict == "malformed":
+        ctx.nontrivial(len(text) > 30)
+        ctx.check(tree is None, "raw/malformed-document-accepted",
+                  lambda: f"premature end or malformed point: returned a tree of {len(tree)} nodes for {short!r}")
+        return
+    ctx.nontrivial(len(want) >= 3)
+    ctx.check(tree is not None, "raw/from_stream/raises:" + type(err).__name__, lambda: f"{type(err).__name__}: {err} for {short!r}")
+    _compare(ctx, "raw", tree, [tuple(w) for w in want], 2 if label == "AXON" else 3, text)
+
+
 SUBCHECKS = [
     Sub("convert", convert_strategy, run_convert, quick=1000, thorough=12000, shards_quick=8,
         required={"material-after-inner-split": 60, "empty-non-final-alternative": 60, "empty-first-alternative": 40,
@@ -194,4 +249,12 @@ SUBCHECKS = [
         required={"cut:last-bracket-only": 200, "cut:inside": 500, "cut:char": 200}),
     Sub("corrupt", corrupt_strategy, run_corrupt, quick=900, thorough=9000, shards_quick=4,
         required={"corrupt:word": 60, "corrupt:missing": 60, "corrupt:extra": 60, "later-point": 100}),
+    # Atheris / libFuzzer, thorough tier: the same grammar strategy driven through Hypothesis's fuzz_one_input ...
+    Fuzz("fuzz_convert", run_convert, ASC_MODULES, mode="structured", strategy=convert_strategy, runs_thorough=2500,
+         shards_thorough=4, max_len=8192),
+    Fuzz("fuzz_truncate", run_truncate, ASC_MODULES, mode="structured", strategy=truncate_strategy, runs_thorough=1200,
+         shards_thorough=2, max_len=8192),
+    # ... and raw document bytes against the independent reference reader (empty and seeded corpus)
+    Fuzz("fuzz_raw", run_raw, ASC_MODULES, mode="raw", decode=decode_raw, seeds=raw_seeds, runs_thorough=150000,
+         shards_thorough=6, max_len=600, required={"raw:table": 200, "raw:malformed": 200}),
 ]
